@@ -1,6 +1,7 @@
 package main
 
 import (
+	"fmt"
 	"go/ast"
 	"go/types"
 )
@@ -146,4 +147,80 @@ func checkListEnvironPaths(p *Prog, r *Result) {
 	})
 	r.Check(fresh && defs > 0, "R34e", "expand.listEnviron_#sorts and cuts a copy", sortPos.Pos(), "the sorted slice is a local defined only by slices.Clone/make before the sort",
 		"the slice that is sorted and cut in place is the caller's: ListEnviron reorders its argument and zeroes its tail, and two environments built by appending to one base slice see each other's pairs")
+}
+
+// R34f: a pair is "name=value" and Get tells names apart by the first '='. A looked-up name that itself contains '='
+// can therefore line up with the value of another pair ("A=x" against "A=x=z"), so Get answers "set" only on paths
+// that have failed the test strings.Contains(name, "="): every return of a Variable literal with Set: true in
+// listEnviron.Get is reached only through the failing branch of that test.
+func checkGetRejectsEqualsInName(p *Prog, r *Result, rule string) {
+	pkg := p.Pkg("expand")
+	info := pkg.TypesInfo
+	fd := p.FuncDecl("expand", "listEnviron.Get")
+	if fd == nil {
+		r.Fatalf("anchor expand.listEnviron.Get not found")
+		return
+	}
+	var nameObj types.Object
+	for _, f := range fd.Type.Params.List {
+		for _, nm := range f.Names {
+			nameObj = info.Defs[nm]
+		}
+	}
+	g := NewFGraph(info, fd.Body, nil)
+	n := 0
+	inspectNoLit(fd.Body, func(m ast.Node) bool {
+		rs, ok := m.(*ast.ReturnStmt)
+		if !ok || len(rs.Results) != 1 {
+			return true
+		}
+		lit := compositeOf(rs.Results[0])
+		if lit == nil {
+			return true
+		}
+		set := false
+		for _, el := range lit.Elts {
+			if kv, ok := el.(*ast.KeyValueExpr); ok {
+				if k, ok := kv.Key.(*ast.Ident); ok && k.Name == "Set" {
+					if tv, ok := info.Types[kv.Value]; ok && tv.Value != nil && tv.Value.String() == "true" {
+						set = true
+					}
+				}
+			}
+		}
+		if !set {
+			return true
+		}
+		n++
+		key := "expand.(listEnviron).Get#answers set only for a name without '='"
+		if n > 1 {
+			key = fmt.Sprintf("%s (%d)", key, n)
+		}
+		blk := blockContaining(g, rs)
+		under := blk != nil && underEdges(g, blk, func(e *FEdge) bool {
+			if e.Cond == nil || e.Pol || e.Tag != nil || e.TypeCase {
+				return false
+			}
+			c, ok := ast.Unparen(e.Cond).(*ast.CallExpr)
+			if !ok || len(c.Args) != 2 {
+				return false
+			}
+			callee := calleeOf(info, c)
+			if callee == nil || (qualName(callee) != "strings.Contains" && qualName(callee) != "strings.ContainsRune" && qualName(callee) != "strings.ContainsAny") {
+				return false
+			}
+			id, ok := ast.Unparen(c.Args[0]).(*ast.Ident)
+			if !ok || info.ObjectOf(id) != nameObj {
+				return false
+			}
+			tv, ok := info.Types[c.Args[1]]
+			return ok && tv.Value != nil && (tv.Value.ExactString() == `"="` || tv.Value.ExactString() == "61")
+		})
+		r.Check(under, rule, key, rs.Pos(), "reached only past the failing branch of strings.Contains(name, \"=\")",
+			"Get can answer \"set\" for a name that contains '=': pairs are told apart by their first '=', so Get(\"A=x\") on the pair \"A=x=z\" returns \"z\" for a name nobody set")
+		return true
+	})
+	if n == 0 {
+		r.Bad(rule, "expand.(listEnviron).Get#returns a set variable", fd.Pos(), "Get never returns a set variable: the rule no longer sees the construct it is about")
+	}
 }
